@@ -302,6 +302,35 @@ func rewriteFile(fset *token.FileSet, f *ast.File, name string, info *types.Info
 func addStalls(fset *token.FileSet, f *ast.File, file string) bool {
 	n := 0
 	var fn string
+	// "@unl": the statement uses a field of the method's receiver and lies (lexically) after an explicit,
+	// non-deferred Unlock / RUnlock of the same function - the classic window of a use after release.
+	// A heuristic for *where to stall* only; it has no bearing on what counts as a race.
+	var unlocks []token.Pos
+	var recv string
+	afterUnlock := func(st ast.Stmt) bool {
+		if recv == "" {
+			return false
+		}
+		after := false
+		for _, u := range unlocks {
+			if u < st.Pos() {
+				after = true
+			}
+		}
+		if !after {
+			return false
+		}
+		uses := false
+		ast.Inspect(st, func(m ast.Node) bool {
+			if sel, ok := m.(*ast.SelectorExpr); ok {
+				if id, ok := sel.X.(*ast.Ident); ok && id.Name == recv && sel.Sel.Name != "Lock" && sel.Sel.Name != "Unlock" && sel.Sel.Name != "RLock" && sel.Sel.Name != "RUnlock" {
+					uses = true
+				}
+			}
+			return !uses
+		})
+		return uses
+	}
 	var stallList func(list []ast.Stmt, inGo bool) []ast.Stmt
 	var visit func(node ast.Node, inGo bool)
 	stallList = func(list []ast.Stmt, inGo bool) []ast.Stmt {
@@ -312,6 +341,8 @@ func addStalls(fset *token.FileSet, f *ast.File, file string) bool {
 			tag := ""
 			if inGo {
 				tag = "@go"
+			} else if afterUnlock(st) {
+				tag = "@unl"
 			}
 			site := fmt.Sprintf("%s:%d:%d(%s)%s", file, p.Line, p.Column, fn, tag)
 			stallSites = append(stallSites, site)
@@ -403,7 +434,23 @@ func addStalls(fset *token.FileSet, f *ast.File, file string) bool {
 		case *ast.FuncDecl:
 			fn = x.Name.Name
 			if x.Body != nil {
+				unlocks, recv = nil, ""
+				if x.Recv != nil && len(x.Recv.List) == 1 && len(x.Recv.List[0].Names) == 1 {
+					recv = x.Recv.List[0].Names[0].Name
+				}
+				ast.Inspect(x.Body, func(m ast.Node) bool {
+					switch y := m.(type) {
+					case *ast.DeferStmt:
+						return false
+					case *ast.CallExpr:
+						if sel, ok := y.Fun.(*ast.SelectorExpr); ok && (sel.Sel.Name == "Unlock" || sel.Sel.Name == "RUnlock") && len(y.Args) == 0 {
+							unlocks = append(unlocks, y.Pos())
+						}
+					}
+					return true
+				})
 				visit(x.Body, false)
+				unlocks, recv = nil, ""
 			}
 		default:
 			fn = "init"
